@@ -3,8 +3,8 @@ from __future__ import annotations
 
 import numpy as np
 
-from common import rat, ser
-from envlib import Adapter, Config
+from common import DriverError, rat, ser, unrat
+from envlib import Adapter, Config, diff_json
 
 
 class A(Adapter):
@@ -13,7 +13,7 @@ class A(Adapter):
     serves = {"C01", "C04", "C05", "C07", "C08", "C09", "C10", "C11", "C12"}
     terminate_on_invalid = True
     max_steps = 110
-    ops = ("state", "step", "judge", "instance", "bounds")
+    ops = ("state", "step", "judge", "instance", "bounds", "episode")
     state_fields = ["board", "step_count", "flat_mine_locations"]
 
     def configs(self, tier):
@@ -67,3 +67,75 @@ class A(Adapter):
 
     def counts_for_return(self, env, s, ts):
         return True
+
+    # ---- whole episodes (run by the C09 / C12 sweeps): C08 theorems minesweeper_play_return / minesweeper_episode_return
+    def synthetic(self, ctx, cfg, env, runner, rng, drv):
+        """Whole real episodes, also ones that end on an INVALID move (the C08 sweep only plays mask-respecting actions):
+        (1) return == r_empty * (safe squares revealed, counted from the raw final board and mine table) + the terminal
+        term (mine / invalid-action reward), recomputed here in NumPy; (2) the model's episode runner `play`
+        (op minesweeper.episode), fed the same start state and actions plus one surplus action, stops at the same step,
+        in the same final state, with the same return and the same classification of the ending."""
+        import jax
+
+        R, C = cfg.meta["rows"], cfg.meta["cols"]
+        r_empty, r_mine, r_invalid = (unrat(cfg.cfg[k]) for k in ("r_empty", "r_mine", "r_invalid"))
+        n_ep = 6 if ctx.quick else 30
+        reqs, recs = [], []
+        for k in range(n_ep):
+            seed = int(rng.integers(1 << 31))
+            s0, ts = runner.reset(jax.random.PRNGKey(seed))
+            mines = set(int(x) for x in np.asarray(s0.flat_mine_locations).reshape(-1))
+            mode = k % 3      # 0: any square (ends on a mine or an invalid move), 1: unexplored squares, 2: safe squares only
+            s, prev, actions, ret = s0, s0, [], 0.0
+            while int(ts.step_type) != 2 and len(actions) < R * C + 2:
+                b = np.asarray(s.board)
+                cand = [(r, c) for r in range(R) for c in range(C)
+                        if mode == 0 or (b[r, c] < 0 and (mode == 1 or (r * C + c) not in mines))]
+                if mode == 2 and len(actions) >= 2 and rng.random() < 0.15:
+                    cand = [(r, c) for r in range(R) for c in range(C) if b[r, c] >= 0]     # revisit: invalid move
+                a = cand[int(rng.integers(len(cand)))]
+                prev = s
+                s, ts = runner.step(s, np.asarray(a, dtype=np.int32))
+                ret += float(ts.reward)
+                actions.append([int(a[0]), int(a[1])])
+            ctx.evaluations += 1
+            if int(ts.step_type) != 2:
+                ctx.fail(self.name, "episode_unfinished", f"episode not over after {len(actions)} steps on a {R}x{C} board",
+                         {"env": self.name, "config": cfg.cid, "reset_seed": seed, "actions": actions})
+                continue
+            lr, lc = actions[-1]
+            if int(np.asarray(prev.board)[lr, lc]) >= 0:
+                ending, term = "invalid", r_invalid
+            elif (lr * C + lc) in mines:
+                ending, term = "mine", r_mine
+            else:
+                ending, term = "cleared", 0.0
+            fb = np.asarray(s.board)
+            safe = sum(1 for r in range(R) for c in range(C) if fb[r, c] >= 0 and (r * C + c) not in mines)
+            expected = r_empty * safe + term
+            case = {"env": self.name, "config": cfg.cid, "reset_seed": seed, "actions": actions, "return": ret,
+                    "safe_revealed": safe, "ending": ending}
+            if abs(ret - expected) > 1e-4 * (1 + len(actions)):
+                ctx.fail(self.name, "episode_return", f"return {ret} != {r_empty} * {safe} safe squares revealed + terminal term {term} "
+                         f"(episode ended: {ending})", case)
+            if ending == "cleared" and int((fb >= 0).sum()) != R * C - len(mines):
+                ctx.fail(self.name, "episode_end", "episode ended although neither a mine nor a revealed square was chosen and the board is not cleared", case)
+            ctx.nontrivial.add((self.name, "episode", ending, seed))
+            ctx.count(f"{self.name}.episode_{ending}")
+            reqs.append({"op": "minesweeper.episode", "cfg": cfg.cfg, "state": self.ser_state(env, s0),
+                         "actions": actions + [[0, 0]]})
+            recs.append((case, s, ret, expected))
+        for (case, s, ret, expected), m in zip(recs, drv.batch(reqs)):
+            ctx.evaluations += 1
+            if isinstance(m, DriverError):
+                ctx.disagree(self.name, f"episode op rejects a real episode: {m}", case)
+                continue
+            d = diff_json(m["final"], self.ser_state(env, s), path="final")
+            if d or m["ending"] != case["ending"]:
+                ctx.fail(self.name, "episode_vs_model", f"the model's episode (play) ends differently: {d[:3]} ending {m['ending']} vs {case['ending']}", case)
+            if abs(unrat(m["return"]) - ret) > 1e-4 * (1 + len(case["actions"])) or m["safe_revealed"] != case["safe_revealed"]:
+                ctx.fail(self.name, "episode_vs_model", f"the model's episode return {unrat(m['return'])} / safe squares {m['safe_revealed']} "
+                         f"differ from the real episode's {ret} / {case['safe_revealed']}", case)
+            if m["formula"] != m["return"] or m["start_consistent"] is not True:
+                ctx.disagree(self.name, "the proved return formula does not hold inside the model (theorem hypothesis violated?)", case)
+
